@@ -73,7 +73,7 @@ theorem Micro.preserves_Inv17 {U : Universe} {Vp : Nat → Nat → Nat → Prop}
       · exfalso
         simp only [increase, newCkpt] at hj
         split at hj <;> cases hj
-  | addSig tgt o src srcH tn hf ho h1 h2 h3 hsp hv =>
+  | addSig tgt o src srcH tn shd hshd hshh hf ho h1 h2 h3 hsp hv =>
     refine ⟨hb', hcfg, ?_, hpost, ?_⟩
     · intro c hc l hl
       rcases Tree.mem_update hc with hc | ⟨r, hr, rfl⟩
@@ -180,7 +180,7 @@ theorem Micro.justified_step {U : Universe} {Vp : Nat → Nat → Nat → Prop} 
     · exfalso
       simp only [increase, newCkpt] at hj
       split at hj <;> cases hj
-  | addSig tgt o src srcH tn hf _ _ _ _ _ _ =>
+  | addSig tgt o src srcH tn shd hshd hshh hf _ _ _ _ _ _ =>
     rcases Tree.mem_update hc' with hc | ⟨r, hr, rfl⟩
     · exact Or.inl ⟨c', hc, hj, rfl⟩
     · exact Or.inl ⟨r.ckpt, Tree.find_mem hr, hj, rfl⟩
@@ -229,7 +229,7 @@ theorem Micro.finalized_step {U : Universe} {Vp : Nat → Nat → Nat → Prop} 
     · exfalso
       simp only [increase, newCkpt] at hj
       split at hj <;> cases hj
-  | addSig tgt o src srcH tn hf _ _ _ _ _ _ =>
+  | addSig tgt o src srcH tn shd hshd hshh hf _ _ _ _ _ _ =>
     rcases Tree.mem_update hc' with hc | ⟨r, hr, rfl⟩
     · exact Or.inl ⟨c', hc, hj, rfl⟩
     · exact Or.inl ⟨r.ckpt, Tree.find_mem hr, hj, rfl⟩
